@@ -17,7 +17,14 @@ from .choices import Choices, ChoiceRandom, derive
 from .net import Net, CLOSED, SimAsyncWS, make_async_driver, \
     make_thread_driver, ws_environ, Refused, FakeWebSocketModule, \
     FakeAiohttp, FakeAioSession
-from .threads import SimKernel, SimQueue, SimEvent
+from .threads import SimKernel, SimQueue, SimEvent, ThreadingShim
+
+# modules of the threaded implementation: a `threading` primitive created in
+# them (none is today) goes through the kernel
+_SIO_SYNC_MODULES = ('server', 'base_server', 'manager', 'base_manager',
+                     'pubsub_manager', 'redis_manager', 'client',
+                     'base_client', 'simple_client', 'namespace',
+                     'base_namespace', 'packet', 'msgpack_packet')
 from .rec import Recorder, make_logger
 
 
@@ -636,6 +643,9 @@ class ThreadWorld(World):
                          FakeWebSocketModule(self.net, k))
         self.patches.set('socketio.simple_client', 'Event',
                          lambda: SimEvent(k))
+        shim = ThreadingShim(k)
+        for m in _SIO_SYNC_MODULES:
+            self.patches.set('socketio.' + m, 'threading', shim)
         self._patch_admin(k.time)
         self.driver = make_thread_driver(k)
         self.ops = []
